@@ -7,4 +7,4 @@ Extraction "model.ml" drv_b2n drv_n2b drv_z_of_n drv_n_of_z drv_nat_of_n drv_n_o
   validate_commit validate_commit_prefix verify_with_voter_set verify_finalizes
   commit_valid_spec ghost_ambiguous ancestry_spec justification_valid_spec
   members is_equivocator voter_ids spec_weight excess_equivocation equivocating_weight tree_hdr tree_num is_eq_or_desc
-  verify_block_justification verify_block_justification_prefix unit_weights vote_payload.
+  verify_block_justification verify_block_justification_prefix unit_weights vote_payload validate_commit_w verify_finalizes_w.
